@@ -412,13 +412,16 @@ class ConditionLike:
                     pre_proc_str = PRE_PROC_LOOKUP[pre_proc_str]
                     if pre_proc_str == "dtype":
                         try:
-                            # convert strings to types
+                            # convert strings to types (a mapping may specify a data path,
+                            # which is resolved below; None means "no argument"):
                             if isinstance(spec_val, list):
                                 spec_val = [
-                                    DTYPE_LOOKUP[i.lower() if isinstance(i, str) else i]
+                                    i
+                                    if isinstance(i, dict)
+                                    else DTYPE_LOOKUP[i.lower() if isinstance(i, str) else i]
                                     for i in spec_val
                                 ]
-                            else:
+                            elif not isinstance(spec_val, dict) and spec_val is not None:
                                 spec_val = DTYPE_LOOKUP[
                                     spec_val.lower()
                                     if isinstance(spec_val, str)
@@ -444,13 +447,16 @@ class ConditionLike:
             # special case:
             if cond_call_str in ["is_instance", "keys_is_instance"]:
                 try:
-                    # convert strings to types
+                    # convert strings to types (a mapping may specify a data path, which is
+                    # resolved below; None means "no argument"):
                     if isinstance(spec_val, list):
                         spec_val = [
-                            DTYPE_LOOKUP[i.lower() if isinstance(i, str) else i]
+                            i
+                            if isinstance(i, dict)
+                            else DTYPE_LOOKUP[i.lower() if isinstance(i, str) else i]
                             for i in spec_val
                         ]
-                    else:
+                    elif not isinstance(spec_val, dict) and spec_val is not None:
                         spec_val = DTYPE_LOOKUP[
                             spec_val.lower() if isinstance(spec_val, str) else spec_val
                         ]
